@@ -118,8 +118,8 @@ IgnoredAlong(disk, p) ==
 ---------------------------------------------------------------------------
 (* STATE                                                                    *)
 (*  disk    Paths -> value          what is on disk inside the workspace    *)
-(*  out     {"x","y"} -> value      a sentinel directory OUTSIDE the        *)
-(*                                  workspace (target "out" of symlinks)    *)
+(*  out     OutPaths -> value       a sentinel directory OUTSIDE the        *)
+(*                                  workspace (target of "out" symlinks)    *)
 (*  tree    Paths -> value          the working-copy tree                   *)
 (*  fs      Paths -> file state     recorded file states (tracked paths)    *)
 (*  sparse  set of prefixes                                                 *)
@@ -127,8 +127,14 @@ IgnoredAlong(disk, p) ==
 (*  stats   result of the last CheckOut / SetSparse                         *)
 (*  err     "" | "panic" | "error" (the jj command failed)                  *)
 NoStats == [added |-> 0, updated |-> 0, removed |-> 0, skipped |-> 0]
-OutNames == {"x", "y"}
-InitOut == [n \in OutNames |-> IF n = "x" THEN File(1, FALSE) ELSE Absent]
+(* the sentinel directory mirrors the sub-structure below the workspace's top-level     *)
+(* directory: relative paths gi, x, x/z, y.  It is pre-populated with x/ (a directory)   *)
+(* and x/z = "precious" (content 1).  Symlink target "out" is the sentinel itself,       *)
+(* "out/x" its sub-directory x.                                                          *)
+OutPaths == {Tail(p) : p \in {q \in Paths : Len(q) > 1}}
+OutOrder == SelectSeq([i \in 1..Len(PathOrder) |-> Tail(PathOrder[i])], LAMBDA q : q # <<>>)
+InitOut == [q \in OutPaths |-> IF q = <<"x">> THEN DirV ELSE IF q = <<"x", "z">> THEN File(1, FALSE) ELSE Absent]
+OutBase(t) == IF t = "out" THEN <<>> ELSE IF t = "out/x" THEN <<"x">> ELSE <<"?">>
 InitState(xp) ==
   [disk |-> [p \in Paths |-> Absent], out |-> InitOut,
    tree |-> [p \in Paths |-> Absent], fs |-> [p \in Paths |-> NoFS],
@@ -160,6 +166,12 @@ DoMkfifo(s, p) == [s EXCEPT !.disk[p] = SpecialV]
 (* rm -rf p *)
 CanRmTree(s, p) == s.disk[p].k = "dir"
 DoRmTree(s, p) == [s EXCEPT !.disk = [q \in Paths |-> IF IsPrefix(p, q) THEN Absent ELSE s.disk[q]]]
+(* rm -rf p; ln -s t p : a directory (at any depth) becomes a symlink, e.g. to the    *)
+(* sentinel directory outside the workspace, which has the same sub-paths              *)
+CanDirToSymlink(s, p, t) == s.disk[p].k = "dir" /\ ~IsIgnorePath(p)
+DoDirToSymlink(s, p, t) ==
+  [s EXCEPT !.disk = [q \in Paths |-> IF q = p THEN Sym(t)
+                                      ELSE IF IsPrefix(p, q) THEN Absent ELSE s.disk[q]]]
 (* rm -rf p; write file p : a directory becomes a file *)
 CanDirToFile(s, p, c) == s.disk[p].k = "dir"
 DoDirToFile(s, p, c) ==
@@ -169,13 +181,27 @@ DoDirToFile(s, p, c) ==
 ---------------------------------------------------------------------------
 (* SNAPSHOT (TreeState::snapshot, FileSnapshotter)                          *)
 
+(* What stat()/open() of path q sees.  The ordinary walk never descends through a       *)
+(* symlink, but visit_tracked_files stats the tracked paths of an ignored directory by    *)
+(* their full name, so the kernel resolves a symlinked directory on the way - also one    *)
+(* that points to the sentinel directory outside the workspace (F8).                      *)
+Seen(s, q) ==
+  LET nondir == {n \in 1..Len(q) - 1 : s.disk[SubSeq(q, 1, n)].k # "dir"} IN
+  IF nondir = {} THEN s.disk[q]
+  ELSE LET n0 == MinOf(nondir)
+           lnk == s.disk[SubSeq(q, 1, n0)]
+           op == OutBase(lnk.t) \o SubSeq(q, n0 + 1, Len(q))
+       IN IF lnk.k = "symlink" /\ op \in OutPaths
+             /\ \A n \in 1..Len(op) - 1 : s.out[SubSeq(op, 1, n)].k = "dir"
+          THEN s.out[op] ELSE Absent
+
 (* visit_tracked_files: inside an ignored directory only tracked paths are  *)
 (* looked at (the file states prefixed by the directory, itself included)   *)
 VisitTracked(s, dir) ==
   LET ps == {q \in Paths : IsPrefix(dir, q) /\ Tracked(s, q) /\ SparseMatch(s.sparse, q)}
-  IN [upd |-> {q \in ps : FileLike(s.disk[q])},
-      del |-> {q \in ps : IF Bug = "snap-tracked-nonfile" THEN s.disk[q].k = "absent"   \* seeded bug
-                          ELSE ~FileLike(s.disk[q])},
+  IN [upd |-> {q \in ps : FileLike(Seen(s, q))},
+      del |-> {q \in ps : IF Bug = "snap-tracked-nonfile" THEN Seen(s, q).k = "absent"   \* seeded bug
+                          ELSE ~FileLike(Seen(s, q))},
       (* symlink_metadata of a tracked path below something that is not a directory   *)
       (* fails with ENOTDIR, which is not NotFound: the whole snapshot fails (F7)      *)
       err |-> \E q \in ps : \E r \in Ancestors(q) : Len(r) > Len(dir) /\ s.disk[r].k \in {"file", "special"}]
@@ -209,7 +235,7 @@ VisitDir(s, dir) ==
 
 (* get_updated_tree_value / write_path_to_store for a present entry *)
 SnapValue(s, p) ==
-  LET dv == s.disk[p]  old == s.tree[p] IN
+  LET dv == Seen(s, p)  old == s.tree[p] IN
   IF dv.k = "symlink" THEN Sym(dv.t)
   ELSE IF dv.m # <<>> THEN
          (* the file holds conflict markers: parsed back into the same conflict *)
@@ -231,7 +257,7 @@ DoSnapshot(s) ==
   ELSE
     LET w == VisitDir(s, <<>>)
         (* overrides handed to the MergedTreeBuilder *)
-        emit == {p \in w.upd : ~(s.disk[p].k = "file" /\ DirConflictAt(s, p)) /\ SnapValue(s, p) # s.tree[p]}
+        emit == {p \in w.upd : ~(Seen(s, p).k = "file" /\ DirConflictAt(s, p)) /\ SnapValue(s, p) # s.tree[p]}
         ovr == emit \cup w.del
         (* a tombstone on a path that is a directory of the tree removes the whole subtree, *)
         (* unless some override below it makes the TreeBuilder rewrite that directory       *)
@@ -240,7 +266,7 @@ DoSnapshot(s) ==
           !.tree = [p \in Paths |-> IF p \in w.del \/ p \in dropped THEN Absent
                                     ELSE IF p \in emit THEN SnapValue(s, p) ELSE s.tree[p]],
           !.fs = [p \in Paths |-> IF p \in w.del THEN NoFS
-                                  ELSE IF p \in w.upd THEN FS(s.disk[p].k, s.disk[p].x) ELSE s.fs[p]]]
+                                  ELSE IF p \in w.upd THEN FS(Seen(s, p).k, Seen(s, p).x) ELSE s.fs[p]]]
     IN IF w.err THEN [s EXCEPT !.err = "error"]    \* "Failed to stat file": the command fails
        ELSE IF StatePathsOK(s2) THEN s2
        ELSE [s EXCEPT !.err = "panic"]    \* debug builds: the process dies, nothing is saved
@@ -284,10 +310,22 @@ EntryStep(w0, xp, p, b, a) ==
       newv == IF a.k = "conflict" THEN MatFile(a.m, xw)
               ELSE IF a.k = "file" THEN File(a.c, xw) ELSE a
   IN
-  IF parKind = "symlink" /\ Len(p) = 2 /\ w.disk[par].t = "out" /\ Bug = "co-follow-symlink"
-  THEN (* seeded bug: the path is resolved through the symlinked directory *)
-       [w EXCEPT !.out[p[Len(p)]] = newv, !.fs[p] = IF a.k = "absent" THEN NoFS ELSE FS(newv.k, newv.x),
-                 !.pushed = IF a.k = "absent" THEN @ ELSE Append(@, p)]
+  IF /\ parKind = "symlink"
+     /\ LET n0 == MinOf(nondir)
+            lnk == w.disk[SubSeq(p, 1, n0)]
+            op == OutBase(lnk.t) \o SubSeq(p, n0 + 1, Len(p))
+        IN /\ op \in OutPaths
+           (* seeded bugs: "co-follow-symlink" resolves every path through a symlinked   *)
+           (* directory; "co-follow-ancestor-symlink" only checks the IMMEDIATE parent   *)
+           (* and only on the in-place fast path (before and after both present)         *)
+           /\ \/ Bug = "co-follow-symlink"
+              \/ (Bug = "co-follow-ancestor-symlink" /\ n0 < Len(p) - 1 /\ b.k # "absent" /\ a.k # "absent"
+                  /\ w.out[SubSeq(op, 1, Len(op) - 1)].k = "dir")
+  THEN (* the path is resolved by the kernel through the symlinked directory *)
+       LET n0 == MinOf(nondir)
+           op == OutBase(w.disk[SubSeq(p, 1, n0)].t) \o SubSeq(p, n0 + 1, Len(p))
+       IN [w EXCEPT !.out[op] = newv, !.fs[p] = IF a.k = "absent" THEN NoFS ELSE FS(newv.k, newv.x),
+                    !.pushed = IF a.k = "absent" THEN @ ELSE Append(@, p)]
   ELSE IF parKind \in {"file", "symlink", "special"}
   THEN SkipEntry(w, p)                                    \* create_parent_dirs: not a directory
   ELSE
@@ -490,6 +528,13 @@ TrackedDirShape(s) ==
 StaleIgnoredShape(s) ==
   \E p \in Paths : /\ Tracked(s, p) /\ s.tree[p].k = "absent" /\ FileLike(s.disk[p])
                     /\ SparseMatch(s.sparse, p) /\ IgnoredAlong(s.disk, p)
+(* F8: visit_tracked_files stats tracked paths of an ignored directory by their *)
+(*     full name; if a directory on the way was replaced by a symlink to a     *)
+(*     directory outside the workspace that has the same sub-path, the         *)
+(*     snapshot reads and records the OUTSIDE file instead of reporting the    *)
+(*     path deleted (the ordinary walk treats the symlink as a file).          *)
+ThroughSymlinkShape(s) ==
+  \E p \in Paths : Tracked(s, p) /\ SparseMatch(s.sparse, p) /\ s.disk[p].k = "absent" /\ FileLike(Seen(s, p))
 (* F7: a tracked path inside a directory that is ignored as a whole lies below   *)
 (*     something that is no longer a directory (its parent directory was        *)
 (*     replaced by a file or fifo): visit_tracked_files gets ENOTDIR from       *)
